@@ -3,7 +3,7 @@ import Spec.Val
 import Drivers.Common
 /-! `vm_c06`: line protocol over `Model.Heap` / `Spec.Val`.
 
-  <mode>\t<nv>\t<tokens>     mode: fixed | pinned | elided | spec | cfg:<r><c><i>[<b>] (0/1 flags)
+  <mode>\t<nv>\t<tokens>     mode: fixed | pinned | elided | shallow | spec | cfg:<r><c><i>[<b>[<d>]] (0/1 flags)
   tokens (space separated, prefix notation, statements separated by `;`):
     stmt  := setVar x RV | setProp x p RV | setIdx PLACE KOPT RV | unset PLACE KEY
            | meth PLACE M | new x | clone x y | ref x y
@@ -214,12 +214,14 @@ def parseCfg (m : String) : Option Cfg :=
   | "fixed" => some .fixed
   | "pinned" => some .pinned
   | "elided" => some .elided
+  | "shallow" => some .shallow
   | _ =>
     match m.splitOn ":" with
     | ["cfg", fl] =>
       match fl.toList with
-      | [a, b, c] => some ⟨a == '1', b == '1', c == '1', true⟩
-      | [a, b, c, d] => some ⟨a == '1', b == '1', c == '1', d == '1'⟩
+      | [a, b, c] => some ⟨a == '1', b == '1', c == '1', true, true⟩
+      | [a, b, c, d] => some ⟨a == '1', b == '1', c == '1', d == '1', true⟩
+      | [a, b, c, d, e] => some ⟨a == '1', b == '1', c == '1', d == '1', e == '1'⟩
       | _ => none
     | _ => none
 
